@@ -36,8 +36,9 @@ def entries():
     add("w_char_insensitive_nonascii_4", 7, "m_char_insensitive::<4,_>(src, false)",
         "witness: parse_character_literal_insensitive with an arbitrary (also non-ASCII) literal is NOT sound - the generator's ASCII guard is load-bearing",
         {"input_bytes": "<=4", "literal": "every char"})
-    add("w_string_insensitive_nonascii_4", 8, "m_string_insensitive::<4,3,_>(src, false)",
-        "witness: parse_string_literal_insensitive with an arbitrary literal is NOT sound", {"input_bytes": "<=4", "literal": "every UTF-8 string <=3 bytes"})
+    add("m_string_insensitive_anylit_4", 8, "m_string_insensitive::<4,3,_>(src, false)",
+        "parse_string_literal_insensitive with an arbitrary (also non-ASCII) literal: never splits a UTF-8 sequence (the ASCII guard of the generator "
+        "matters for the character variant only)", {"input_bytes": "<=4", "literal": "every UTF-8 string <=3 bytes"})
     return E
 
 
